@@ -663,9 +663,14 @@ def check_array(nm, ai, rows):
     scal = [run(sp.call, r) for r in rows]
     if any(isinstance(s, str) for s in scal):
         return None
-    res = run(sp.call, tuple(np.array(vals, dtype=float) if j == ai else b for j, b in enumerate(rows[0])))
+    arr = np.array(vals, dtype=float)
+    res = run(sp.call, tuple(arr if j == ai else b for j, b in enumerate(rows[0])))
     if isinstance(res, str):
         return None     # scalar-only: a loud refusal, reported in the evidence by the correspondence
+    # the caller's array is an input, not scratch space: a profile evaluated twice gives the same values
+    if not np.array_equal(arr, np.array(vals, dtype=float)):
+        return Finding(f"{sp.module}.{nm}:array-argument-modified", f"{nm}: the array passed as {sp.argnames[ai]} was overwritten by the call "
+                       f"({vals} -> {arr.tolist()})", {"check": "array", "fn": nm, "ai": ai, "rows": [list(r) for r in rows]}, arr.tolist(), vals)
     res = np.asarray(res)
     if res.shape == ():      # a scalar returned for an array argument (early return): equal under broadcasting
         res = np.broadcast_to(res, (len(vals),))
